@@ -59,6 +59,8 @@ KeySet ==
                                    <<98, 107, 116, 50, 47, 97>>}                                            \* _meta  metadata/x  bkt2/a
     [] KeySetName = "hostile3" -> {<<98, 117, 99, 107, 101, 116, 115>>, <<98, 117, 99, 107, 101, 116, 47, 98, 107, 116, 49>>,
                                    <<97>>}                                                                  \* buckets  bucket/bkt1  a
+    \* names the fs backends use for their own temporary / probe files: .gofakes3-upload.tmp  d/.gofakes3-upload.tmp  d/x  .modtime-resolution
+    [] KeySetName = "hostile4" -> {<<46, 103, 111, 102, 97, 107, 101, 115, 51, 45, 117, 112, 108, 111, 97, 100, 46, 116, 109, 112>>, <<100, 47, 46, 103, 111, 102, 97, 107, 101, 115, 51, 45, 117, 112, 108, 111, 97, 100, 46, 116, 109, 112>>, <<100, 47, 120>>, <<46, 109, 111, 100, 116, 105, 109, 101, 45, 114, 101, 115, 111, 108, 117, 116, 105, 111, 110>>}
     \* non-canonical keys (key-value backends keep them apart as byte strings)
     [] KeySetName = "dots"     -> {<<46>>, <<46, 46>>, <<97, 47, 46, 46, 47, 98>>, <<98>>, <<97, 47, 47, 98>>}  \* .  ..  a/../b  b  a//b
     \* keys made of the bytes of their bucket's name: b  bkt1  1/t
@@ -276,6 +278,22 @@ EscapeKeys == { <<46, 46>>, <<46, 46, 47, 120>>, <<46, 46, 47, 98, 107, 116, 50,
                 <<46, 46, 47, 46, 46, 47, 109, 101, 116, 97, 100, 97, 116, 97, 47, 98, 107, 116, 50, 47, 120>>,  \* ../../metadata/bkt2/x
                 <<46, 46, 92, 120>>, <<46>> }                                                         \* ..\x  .
 AnyReply == [st |-> 0, code |-> "*"]
+\* listing prefixes that walk out of the bucket: no stored key starts with any of them, so a listing that is
+\* answered at all is empty (in particular it shows nothing of another bucket or of the metadata store)
+EscapePrefixes == { <<46, 46>>,
+                    <<46, 46, 47>>,
+                    <<46, 46, 47, 98, 107, 116, 50>>,
+                    <<46, 46, 47, 98, 107, 116, 50, 47>>,
+                    <<46, 46, 47, 46, 46, 47, 109, 101, 116, 97, 100, 97, 116, 97, 47>>,
+                    <<46, 46, 47, 46, 46, 47, 109, 101, 116, 97, 100, 97, 116, 97, 47, 98, 107, 116, 50, 47>>,
+                    <<46, 47>>,
+                    <<122, 47, 46, 46, 47>>,
+                    <<46, 46, 47, 98, 107, 116>>,
+                    <<46, 46, 47, 98, 107, 116, 49, 47>> }
+EscapeListOps ==
+  {[op |-> "ListObjects", b |-> b, v2 |-> FALSE, prefix |-> p, delim |-> d, max |-> 0, marker |-> <<>>, hasMarker |-> FALSE]
+     : b \in Buckets, p \in EscapePrefixes, d \in {<<>>, <<47>>}}
+EmptyListingOrRefusal == [st |-> 0, code |-> "*", keys |-> <<>>, prefixes |-> <<>>, optPrefixes |-> <<>>]
 EscapeOps ==
   UNION {{ [op |-> "PutObject", b |-> b, k |-> e, body |-> <<"x2">>, meta |-> NoMeta, vid |-> ""],
            [op |-> "GetObject", b |-> b, k |-> e], [op |-> "HeadObject", b |-> b, k |-> e],
@@ -292,8 +310,10 @@ EscapeAuditOps(s, b) ==
         [j \in 1..Len(keys) |-> [op |-> "GetObject", b |-> present[i], k |-> keys[j]]]
         \o (IF present[i] # b THEN <<ListOp(present[i], <<>>), ListOp(present[i], <<47>>)>> ELSE <<>>)])
 EmitEscape ==
-  \A o \in EscapeOps :
-     PrintT(ToJson([h |-> Append(hist, [op |-> o, r |-> AnyReply]), a |-> WithReply(st, EscapeAuditOps(st, o.b))]))
+  /\ \A o \in EscapeOps :
+       PrintT(ToJson([h |-> Append(hist, [op |-> o, r |-> AnyReply]), a |-> WithReply(st, EscapeAuditOps(st, o.b))]))
+  /\ \A o \in EscapeListOps :
+       PrintT(ToJson([h |-> Append(hist, [op |-> o, r |-> EmptyListingOrRefusal]), a |-> <<>>]))
 
 \* for walk recording: the history and the projection of the state it reaches,
 \* one line per distinct state (printed when the state is first reached)
